@@ -9,6 +9,7 @@ CONSTANTS
   DefaultCap = 2
   FinCaps <- MCFinCapsSmall
   MaxOps = 4
+  WordBits = 0
   Bug = "none"
   MaxLog2 = 6
 VIEW View
